@@ -3,7 +3,7 @@
 # derives the seed name from meta.json/slug, confirms it (scratch worktree), runs the checks against /repo, reverts.
 set -u
 PID=$1; WT=$2; SLUG=$3; CHECKS=$4
-NAME=$PID-r4-$SLUG
+NAME=$PID-${ROUND:-r4}-$SLUG
 cd /verif
 tools/seed_confirm.sh $NAME $WT/_seed || exit 1
 python3 - $NAME <<'PY'
